@@ -58,6 +58,9 @@ const (
 	Tricky = "transfer/channel-3"
 	// A Noble-side voucher (an asset that reached Noble over IBC and was sent out again).
 	IBCVoucher = "ibc/27394FB092D2ECCD56123C74F36E4C1F926001CEADA9CA97EA622B25F41E5EB2"
+	// SwapDenomUpper differs from the output denomination of the LAB world's swap controller
+	// ("uswapped") only by letter case: bank denominations are case sensitive.
+	SwapDenomUpper = "USWAPPED"
 	// OddDenom uses every character class a bank denomination may contain besides '/'.
 	OddDenom = "A0:b.c_d-E"
 	// LongDenom has the maximum length of a bank denomination (128).
@@ -78,7 +81,7 @@ var (
 	// Denominations that have a Hyperlane collateral token.
 	HypDenoms = []string{Uusdc, Ufoo, Uhuge}
 	// All denominations held by the channel escrows.
-	EscrowDenoms = []string{Uusdc, Ufoo, Gamm, Tricky, IBCVoucher, OddDenom, LongDenom}
+	EscrowDenoms = []string{Uusdc, Ufoo, Gamm, Tricky, IBCVoucher, OddDenom, LongDenom, SwapDenomUpper}
 
 	OrbiterAddr = core.ModuleAddress
 	DustAddr    = authtypes.NewModuleAddress(core.DustCollectorName)
